@@ -26,7 +26,7 @@ package db
 
 //@ invoke "github.com/brutella/hc/db.Database.EntityWithName"(d, name) (e, err)
 //@   pure
-//@   ensures err == nil ==> dbhas(d, name) && seq(e.PublicKey) == dbkey(d, name) && e.Name == name
+//@   ensures err == nil ==> dbhas(d, name) && seq(e.PublicKey) == dbkey(d, name) && e.Name == name && storedAt(name, seq(e.PublicKey))
 //@   ensures !dbhas(d, name) ==> err != nil
 
 //@ invoke "github.com/brutella/hc/db.Database.Entities"(d) (es, err)
